@@ -652,6 +652,16 @@ func scenarioC05UP4(r *Run) {
 		r.Op("cycle %d: session cp=%d up=%d established (ue=%v teids=%v); ending: %s", c, s.CPSEID, up, u32IP(ue), teids, ending)
 		r.Skel("end:" + ending)
 		kinds[ending] = true
+		// the end of an association whose session the switch refuses to let go of (one
+		// Write of the teardown fails): the switch keeps what it keeps, but everything
+		// the agent itself holds for the session is returned all the same
+		teardownArmed := false
+		w0 := sw.Fired["p4-write-fail-transport"]
+		if (ending == "release" || ending == "silence" || ending == "hbfail") && r.Ch.Choose(4, "teardown-write-fails") == 1 {
+			teardownArmed = true
+			sw.FailKind = "transport"
+			sw.Faults.FailNth = sw.Writes + 1 + r.Ch.Choose(2, "teardown-which-write")
+		}
 		switch ending {
 		case "deletion":
 			dr := p.Delete(s)
@@ -700,6 +710,33 @@ func scenarioC05UP4(r *Run) {
 		}
 		if !r.AgentAlive() {
 			break
+		}
+		if teardownArmed {
+			sw.Faults.FailNth = 0
+			if sw.Fired["p4-write-fail-transport"] > w0 {
+				r.Fault("p4-write-failed-in-teardown")
+				r.Skel("teardown-write-failed")
+				ctx := fmt.Sprintf("cycle %d: session up=%d ended by %s while a Write RPC of the teardown failed", c, up, ending)
+				st, used := r.probeAgent(teids)
+				live := len(r.LiveSessions())
+				if st.poolHeld >= 0 && st.poolHeld != live {
+					r.Violate("C05", "ue-address-not-returned:"+ending+":teardown-write-failed", "%s: the pool still holds %d address(es) for %d live session(s) (free %d of %d)", ctx, st.poolHeld, live, st.poolFree, poolSize)
+				} else if st.stored != live {
+					r.Violate("C05", "session-record-left:"+ending+":teardown-write-failed", "%s: %d session record(s) stored for %d live session(s)", ctx, st.stored, live)
+				} else if int(st.gauge+0.5) != live {
+					r.Violate("C05", "sessions-gauge:"+ending+":teardown-write-failed", "%s: pfcp_sessions gauge is %v with %d live session(s)", ctx, st.gauge, live)
+				} else {
+					for i, u := range used {
+						if u {
+							r.Violate("C05", "teid-not-returned:"+ending+":teardown-write-failed", "%s: TEID %d chosen by the agent is still marked used", ctx, teids[i])
+							break
+						}
+					}
+				}
+				// the switch holds the remains of that session from here on: the run ends
+				r.CheckNoPanics("C05")
+				return
+			}
 		}
 		// ---- nothing of the session is left at the switch, every id is back
 		ctx := fmt.Sprintf("cycle %d: session up=%d ended by %s", c, up, ending)
